@@ -165,6 +165,14 @@ func drawRequest(t *rapid.T) (request, bool) {
 	fam := cases.Ops[id].Family
 	r := request{ID: id, Repeat: 1}
 	r.Len = rapid.SampledFrom([]int{0, 1, 2, 4, 5, 8, 9, 40}).Draw(t, "len")
+	if fam == "index_limit" { // arrays of length 127..65536: draw the coordinates around those limits
+		lim := rapid.SampledFrom([]int64{126, 127, 128, 129, 253, 254, 255, 256, 257, 65534, 65535, 65536, 0, 1, -1}).Draw(t, "limit")
+		r2 := request{ID: id, Repeat: 1, Len: r.Len, Cap: r.Len}
+		r2.Idx = uint64(lim)
+		r2.Lo = uint64(rapid.SampledFrom([]int64{0, 1, 127, 128, 254, 255, 256}).Draw(t, "limlo"))
+		r2.Hi = uint64(lim)
+		return r2, true
+	}
 	r.Cap = r.Len + rapid.SampledFrom([]int{0, 0, 1, 3, 8}).Draw(t, "extra")
 	near := false
 	if rapid.Bool().Draw(t, "inrange") { // operands the operation must accept
